@@ -275,6 +275,10 @@ func buildManifest(r *rand.Rand, entries []entry, fancy bool) manifest {
 			if fancy {
 				gap = 1 + r.Intn(3)
 			}
+			if fancy && ei > 0 && r.Intn(8) == 0 && !(entries[ei-1].Raw == "" && x.lastBlock) { // (inside a block scalar they would be content)
+				// blank and comment-only lines between entries move every later entry down
+				x.put([]string{"\n", "# between ü\n", "   \n", "\n\n"}[r.Intn(4)])
+			}
 			x.put(strings.Repeat(" ", ind))
 			if ei == 0 {
 				m.Contents = &ypos{x.line, x.col}
@@ -315,6 +319,10 @@ func buildManifest(r *rand.Rand, entries []entry, fancy bool) manifest {
 		}
 	}
 	m.Text = x.sb.String()
+	if fancy && r.Intn(7) == 0 {
+		// Windows line ends: lines and columns of every node stay what they are
+		m.Text = strings.ReplaceAll(m.Text, "\n", "\r\n")
+	}
 	return m
 }
 
